@@ -387,6 +387,7 @@ def lastRegChains : List Op → Str → List Str → List Str
   | [], _, d => d
   | .reg ok r :: rest, a, d =>
     lastRegChains rest a (if validRegistration ok r = true ∧ a = r.address then r.chains else d)
+  | .regDry _ _ :: rest, a, d => lastRegChains rest a d      -- a discarded registration does not count
   | .msg _ :: rest, a, d => lastRegChains rest a d
 
 theorem chainsOf_run (fold : Str → Str → Bool) (st : State) (ops : List Op) (a : Str) :
@@ -404,6 +405,9 @@ theorem chainsOf_run (fold : Str → Str → Bool) (st : State) (ops : List Op) 
       · simp only [hv, ↓reduceIte, true_and]
         exact chainsOf_register st.reg r a
       · simp [hv]
+    | regDry ok r =>
+      simp only [run, stepOp, lastRegChains, applyRegDry]
+      rw [ih]
     | msg m =>
       simp only [run, stepOp, lastRegChains]
       rw [ih, deliver_reg]
@@ -452,6 +456,9 @@ theorem registration_confers_only_listed_chains (fold : Str → Str → Bool) (s
         simp only [lastRegChains]
         rw [if_neg (by intro hx; exact hne hx.2.symm)]
         exact ih d (fun a b hm => hh a b (List.mem_cons_of_mem _ hm))
+      | regDry ok' r' =>
+        simp only [lastRegChains]
+        exact ih d (fun a b hm => hh a b (List.mem_cons_of_mem _ hm))
       | msg m =>
         simp only [lastRegChains]
         exact ih d (fun a b hm => hh a b (List.mem_cons_of_mem _ hm))
@@ -479,6 +486,45 @@ theorem history_accepts_only_last_registered (fold : Str → Str → Bool) (st :
   rw [← chainsOf_run fold st pre s.raw]
   exact ⟨fun chain hdrOK newTss h => (update_needs_relayer _ _ _ _ _ _ h).1,
          fun p proofOK cb h => (recv_needs_relayer _ _ _ _ _ _ h).1⟩
+
+/-! ### discarded registrations -/
+
+/-- erase the registrations that ran on a discarded context branch -/
+def committed : List Op → List Op
+  | [] => []
+  | .regDry _ _ :: rest => committed rest
+  | o :: rest => o :: committed rest
+
+/-- **A discarded registration confers nothing**: a registration handler run on a context branch that is thrown
+away (the dry run of gov `SubmitProposal`, a transaction or proposal execution that fails later) leaves no trace —
+after ANY history the whole state, hence every later verdict, is the one reached by the same history with the
+discarded registrations erased: authorisation is a function of the COMMITTED registry only. -/
+theorem discarded_registration_confers_nothing (fold : Str → Str → Bool) (st : State) (ops : List Op) :
+    (run fold st ops).1 = (run fold st (committed ops)).1 := by
+  induction ops generalizing st with
+  | nil => rfl
+  | cons o rest ih =>
+    cases o with
+    | reg ok r => simp only [committed, run]; exact ih _
+    | regDry ok r => simp only [committed, run, stepOp, applyRegDry]; exact ih _
+    | msg m => simp only [committed, run]; exact ih _
+
+/-- in particular: whatever was dry-run, an accepted update / receive comes from a signer whose most recent
+COMMITTED valid registration lists the chain (`lastRegChains` skips discarded registrations), and the verdict of
+every message equals the verdict in the history without the discarded registrations. -/
+theorem verdict_ignores_discarded (fold : Str → Str → Bool) (st : State) (ops : List Op) (m : Msg) :
+    deliver fold (run fold st ops).1 m = deliver fold (run fold st (committed ops)).1 m := by
+  rw [discarded_registration_confers_nothing]
+
+theorem lastRegChains_committed (ops : List Op) (a : Str) (d : List Str) :
+    lastRegChains (committed ops) a d = lastRegChains ops a d := by
+  induction ops generalizing d with
+  | nil => rfl
+  | cons o rest ih =>
+    cases o with
+    | reg ok r => simp only [committed, lastRegChains]; exact ih _
+    | regDry ok r => simp only [committed, lastRegChains]; exact ih _
+    | msg m => simp only [committed, lastRegChains]; exact ih _
 
 /-! ### the payout direction: `GetRelayerAddressOnTeleport` -/
 
@@ -571,6 +617,9 @@ theorem regWF_run (fold : Str → Str → Bool) (st : State) (ops : List Op) (h 
           exact hv.1.2.symm
         · exact h x hx
       · simpa [hv] using h
+    | regDry ok r =>
+      simp only [run, stepOp, applyRegDry]
+      exact ih _ h
     | msg m =>
       simp only [run, stepOp]
       apply ih
